@@ -199,6 +199,12 @@ func (s *clientSocket) registerSubEvents() {
 			if s.state != clientSocketConnStateDisconnected && s.connectSentEpoch == epoch {
 				return
 			}
+			// The handlers of an occurrence are collected before they run: this one can still
+			// run after `Disconnect` has taken the socket off the manager's events. A socket that
+			// was disconnected does not connect again by itself.
+			if !s.Active() {
+				return
+			}
 			s.state = clientSocketConnStateConnectPending
 			s.closeReported = false
 			s.connectSentEpoch = epoch
